@@ -165,6 +165,8 @@ pub fn e_collect(spec: &[String], s: &McState) -> bool {
         ["OUTBOXEQ", p, k] => outbox_len(s, p_u64(p)) == p_u64(k) as i64,
         ["NOEVENTS"] => s.events.is_empty(),
         ["DEPTHEQ", k] => s.depth == p_u64(k),
+        ["DEPTHLE", k] => s.depth <= p_u64(k),
+        ["ALL"] => true,
         _ => panic!("bad COLLECT"),
     }
 }
@@ -565,6 +567,10 @@ pub fn run_lines(lines: &[String], pre: Option<ModelChecker>, pre_nodes: Option<
                 cb.clear();
                 match res {
                     Err(_) => {
+                        // the states evaluated before the panic (information for the monitors; not compared)
+                        for (j, l) in rec.borrow().iter().enumerate() {
+                            writeln!(out, "#CHECK {} {}", j, l).unwrap();
+                        }
                         writeln!(out, "RESULT PANIC").unwrap();
                         // the checker is in an undefined state after a panic
                         return out;
